@@ -1084,7 +1084,11 @@ def simplify_variable(
     return var
   new_var = ctx.program.NewVariable()
   for bindings in bindings_by_hash.values():
-    new_var.AddBinding(bindings[0].data, bindings, node)
+    # Each deduplicated binding is an alternative explanation of the merged
+    # value, so it gets its own source set. (A single source set holding all of
+    # them would require every alternative to be visible at the same time.)
+    for b in bindings:
+      new_var.AddBinding(bindings[0].data, [b], node)
   return new_var
 
 
